@@ -141,7 +141,12 @@ def named_array(ex, st, seq: VSeq):
         return VSeq([nm], seq.ln, seq.et, seq.kind)
     nm = z3.Const(fresh_name("arr"), A)
     j = z3.Int(fresh_name("nj"))
-    fact = z3.ForAll([j], z3.Implies(z3.And(0 <= j, j < seq.ln), nm[j] == a[j]), patterns=[nm[j]])
+    body = z3.simplify(a[j])
+    try:
+        # either side may trigger the definition: the named cell, or the expression it abbreviates
+        fact = z3.ForAll([j], z3.Implies(z3.And(0 <= j, j < seq.ln), nm[j] == body), patterns=[nm[j], body])
+    except z3.Z3Exception:
+        fact = z3.ForAll([j], z3.Implies(z3.And(0 <= j, j < seq.ln), nm[j] == body), patterns=[nm[j]])
     st.pc.append(fact)
     cache[key] = (nm, fact)
     return VSeq([nm], seq.ln, seq.et, seq.kind)
@@ -246,6 +251,26 @@ def call_builtin(ex, st, name, args, kwargs, node):
         raise Unsupported("range with step")
     if name == "enumerate":
         return VEnum(_seq_of(ex, st, args[0]))
+    if name == "min" and len(args) == 1 and isinstance(args[0], VMap) and "key" in kwargs:
+        m = args[0]
+        ex.lib_used.add("min(dict, key=dict.get): SOME key of minimal value (CPython: the first one in insertion order)")
+        kk = z3.Int(fresh_name("argmin"))
+        q = z3.Int(fresh_name("mk"))
+        # (the size term is kept consistent with the key set by every dictionary update: T-card)
+        ex.oblige(st, f"L{line}.min_of_nonempty_dict", m.card > 0)
+        st.pc.append(m.dom[kk])
+        st.pc.append(z3.ForAll([q], z3.Implies(m.dom[q], m.val[kk] <= m.val[q]), patterns=[m.dom[q]]))
+        return VStr(kk)
+    if name in ("upd", "rem", "allkeys"):
+        if name == "upd":
+            m, k, v = args[0], args[1].t, as_int(args[2])
+            return VMap(z3.Store(m.dom, k, z3.BoolVal(True)), z3.Store(m.val, k, v),
+                        z3.If(m.dom[k], m.card, m.card + 1))
+        if name == "rem":
+            m, k = args[0], args[1].t
+            return VMap(z3.Store(m.dom, k, z3.BoolVal(False)), m.val, z3.If(m.dom[k], m.card - 1, m.card))
+        o = VOpaque("allkeys")
+        return o
     if name in ("min", "max"):
         if len(args) == 1 and isinstance(args[0], VSeq):
             return seq_min(ex, st, args[0], line, name)
@@ -262,6 +287,9 @@ def call_builtin(ex, st, name, args, kwargs, node):
         return sorted_model(ex, st, _seq_of(ex, st, args[0]), line)
     if name == "int":
         v = args[0]
+        if isinstance(v, VOpt):
+            ex.oblige(st, f"L{line}.int_arg_not_none", z3.Not(v.isnone))
+            v = v.val
         if isinstance(v, (VInt, VBool)):
             return VInt(as_int(v))
         if isinstance(v, VReal):
@@ -550,7 +578,7 @@ def exec_with(ex, s, st):
 # ---------------------------------------------------------------------------------------------
 
 
-REAL_BUILTINS = {"f32", "ln", "exp_", "log2_", "pow_", "ceil_", "le_bytes", "be_bytes"}
+REAL_BUILTINS = {"f32", "ln", "exp_", "log2_", "pow_", "ceil_", "le_bytes", "be_bytes", "upd", "rem", "allkeys"}
 
 
 def call_spec(ex, st, name, args, kwargs):
